@@ -363,12 +363,19 @@ EXTRA_TEXT = {
            'expression-valued names; retry policy around the sub-workflow '
            'task.',
     'C10': ' Pause during retry delays, waits, with-items and around a '
-           'sub-workflow (root and child); K=1 in quick.',
+           'sub-workflow (root and child); K=1 in quick; every policy '
+           'program of C08 (retry matrix, waits, timeout races, fail-on, '
+           'task kinds x policies, policy pairs) paused at every point and '
+           'resumed at every later point with the policy oracles active.',
     'C11': ' The same stop repeated on the finished execution; results '
            'that arrive after the stop and cannot be handled.',
     'C12': ' Reruns inside the children of a with-items task, without and '
            'with a concurrency limit.',
-    'C14': ' Accessor-order independence: what an accessor of a (cached) '
+    'C14': ' Workbook presentation variants (a comment / blank line at '
+           'every position x indentation, trailing blanks, every block '
+           'scalar line replaced by comment-, key- and list-looking text): '
+           'the text cut out for every member must still be that member.'
+           ' Accessor-order independence: what an accessor of a (cached) '
            'specification object returns must not depend on the accessors '
            'called before (all ordered pairs, against a fresh object).',
     'C18': ' Populations with 4-6 roots for several batches of surplus.',
